@@ -484,3 +484,18 @@ Proof.
   intros Hg Hd Hc Hk Hp. unfold task_step, gen_offer_finally_sends_stop. rewrite Hg, Hd, Hc, Hk, Hp. cbv zeta.
   destruct (t_cyclic (cfg (set_can_answer inst false w)) =? 0); reflexivity.
 Qed.
+
+(* ---- ServiceSubscriber._subscribe (C14) ---- *)
+Theorem subscribe_round_is_the_translated_source t w :
+  subscribe_round t w
+  = gen_subscribe_round (group_entries (sub_entries w))
+      (fun p acc => send_subscribe (t_subscribe_ttl (cfg acc)) (fst p) (snd p) acc)
+      (fun w1 => t_refresh (cfg w1)) (finish_task t) (fun r => task_sleep t TSub r 1 0) w.
+Proof. reflexivity. Qed.
+Theorem subscribe_task_is_the_translated_source t w tk :
+  get_task t w = Some tk -> tk_done tk = false -> tk_kind tk = TSub ->
+  task_step t w = if tk_must_cancel tk && gen_subscribe_cancelled_in_sleep_ends then finish_task t w else subscribe_round t w.
+Proof.
+  intros Hg Hd Hk. unfold task_step, gen_subscribe_cancelled_in_sleep_ends. rewrite Hg, Hd, Hk, andb_true_r.
+  destruct (tk_pc tk) as [|p]; reflexivity.
+Qed.
